@@ -12,6 +12,26 @@ CHECKS = {
             "Every case of the declared finite universe is encoded three ways (ST, MT, frame-level) and decoded by claxon and by an RFC 9639 reference decoder; exhaustive within the stated deviation bound, not sampled.",
             "Trusts claxon 0.4.3 and the harness's own reference decoder (cross-checked against each other on every case); inputs limited to the atoms/coordinates of DESIGN 2.3.",
             "DESIGN.md 3 C01"),
+    "C02": ("exploration",
+            "exhaustive enumeration: U_2/U_3 + header-class group GH validated by an RFC 9639 reference validator, plus three complete code spaces (every final-frame length 1..=32767, every sample rate 1..=96000, frame numbers: boundary windows / all of 0..2^31)",
+            "Every stream of the declared universe and every point of three complete header code spaces passes a validator that enforces each clause of the statement; exhaustive within the stated bounds.",
+            "Trusts the harness's own RFC 9639 validator (cross-checked against claxon in C01); stream-level inputs limited to the atoms/coordinates of DESIGN 2.3.",
+            "DESIGN.md 3 C02"),
+    "C03": ("exploration",
+            "exhaustive dense product width x channels x sign-heavy atoms x lengths x block sizes x 3 deliveries x {ST, frame-level, MT 1..3 workers}; STREAMINFO compared with the harness's own LE serialisation hashed with an independent MD5",
+            "Every case of a dense product over the dimensions the MD5/count path depends on, each through three deliveries and five encoding modes; STREAMINFO must state the source format, the delivered count and the reference MD5, identically in all of them.",
+            "MD5 from the md-5 crate over the harness's serialisation; the schedule quantifier for the hashing thread is covered by the loom harness of C05.",
+            "DESIGN.md 3 C03"),
+    "C08": ("exploration",
+            "exhaustive enumeration of every component of every stream of U_2/U_3 + G9 (encoder- and parser-produced, before/after precompute) and of constructor grids incl. the 2^32 quotient-sum switch; count_bits compared with three sinks",
+            "count_bits() is compared with the bits received by MemSink<u8>, MemSink<u64> and a counting sink for every component reachable through public accessors, and for public constructors over grids that straddle every counting shortcut in the code.",
+            "Residuals above 2^29 bits are written into the counting sink only.",
+            "DESIGN.md 3 C08"),
+    "C15": ("exploration",
+            "exhaustive enumeration of every stream/frame/subframe of U_2/U_3 + GH/GS through the crate's parser: consumed length, verify, byte-identical re-serialisation, decode == input; constructed frames over every header code class",
+            "Every stream, frame and subframe the library serialises in the declared universe is parsed back, verified, re-serialised and decoded; plus frames built with public constructors over every block-size / sample-rate / channel-assignment class and frame-number length.",
+            "Inputs limited to the declared universe; decode compared with the harness's own input blocks.",
+            "DESIGN.md 3 C15"),
     "C04": ("exploration",
             "exhaustive enumeration of every input length (0..=3*bs for small block sizes, every residue for large ones) x content x width x mode; STREAMINFO bounds compared with frames parsed by a reference decoder",
             "Complete over input length for the listed block sizes: every stream is parsed by the RFC 9639 reference parser and by claxon; bounds must be valid (>=16, <= non-final frames, == requested max) and frame-size fields exact.",
@@ -58,7 +78,7 @@ def main():
             "guard": "--cfg flacenc_verif (plus --cfg flacenc_verif_loom for the loom build)",
             "enable": "RUSTFLAGS=\"--cfg flacenc_verif --cfg flacenc_verif_loom -C target-cpu=native\" cargo build (done by ./vcheck for the parx engine)",
             "baseline_off_cmd": "cd /repo && cargo nextest run --workspace --no-fail-fast --offline || cargo test --workspace --no-fail-fast --offline",
-            "source_commits": [],
+            "source_commits": ["e691247"],
             "add_only": True,
         },
         "engines": [
